@@ -76,6 +76,10 @@ CHECKS.update({
    note=TB + "1 known finding (T3: one-byte exponent delta, a format limitation).",
    tech="static analysis: decision-table extraction and interval evaluation on LLVM IR"),
 })
+CHECKS["C03"] = dict(engine="E-SIZE + sibling size terms", cat="other", ref="DESIGN.md 4/C03, 3/E-SIZE, 10.7",
+   text="Z1/Z3: for the size predictors and their encoders (FORSize/FOREncode+BatchEncode, PFORSize/PFOREncode, DictEncodedSizeWithDict/DictEncodeWithDict, GroupSize/GroupEncode, RLEAnalyze/RLEEncode) every call whose result advances the encoder's cursor is matched by a predictor term with the same extracted length table on the same quantity (or a constant maximum), and the total sizes, as polynomials over named lengths, counts and widths with loop trip counts, are equal (>= for the documented worst-case PFOR predictor). Z2: for the delta codec (signed and unsigned) every write offset+size and the returned length are bounded by init + back-edges x advance and compared coefficient-wise with varintDeltaMaxEncodedSize. NOT decided: the maximum-size bounds of RLE (amortised), adaptive (depends on value-level selection), Elias, BP128 and float; see evidence not_decided.",
+   note=TB + "Sizes and counts are non-negative and do not wrap; metadata fields named alike in predictor and encoder denote the same quantity (FOREncode re-analyses when meta->count != count). 1 fixed finding (varintPFORSize index term).",
+   tech="static analysis: sibling agreement of extracted length tables / value roles and symbolic upper bounds of output cursors (polynomials with loop trip counts) on LLVM IR")
 NA = {
  "C02": "losslessness of array codecs is value-level equality after arithmetic; no clause has a shape in the code that static analysis can decide (DESIGN.md 4/C02)",
 }
